@@ -95,6 +95,9 @@ impl StateMachine<'_> {
         self.minus_file_event = file_event;
 
         if self.source == Source::DiffUnified {
+            // There need not be a 'diff' line before this section, and it may be about the
+            // same two files as the previous one: it gets a file header of its own.
+            self.handled_diff_header_header_line_file_pair = None;
             self.state = State::DiffHeader(DiffType::Unified);
             self.painter
                 .set_syntax(get_filename_from_marker_line(&self.line));
